@@ -14,6 +14,9 @@ type intrinsicFn func(ip *Interp, fn *ssa.Function, args []Value) Value
 
 func nanValue() float64 { return math.NaN() }
 
+// fallThrough is returned by an intrinsic that declines; the real SSA body is then executed.
+var fallThrough = &Opaque{kind: "fallthrough"}
+
 const zenoPath = "github.com/internetarchive/Zeno"
 
 func fnKey(fn *ssa.Function) string {
@@ -313,7 +316,9 @@ func init() {
 			}
 			return nil
 		}
-		if ip.query(c) == "sat" {
+		if v, ok := ip.evalBool(c); ok && v {
+			ip.res.Covers[label] = true
+		} else if r, _ := ip.query(c); r == "sat" {
 			// witness exists on this path; do not constrain the path
 			ip.res.Covers[label] = true
 		}
@@ -383,6 +388,29 @@ func init() {
 		ip.spawn(&deferred{fn: args[0]})
 		return nil
 	}
+	V["All"] = func(ip *Interp, fn *ssa.Function, args []Value) Value {
+		sl := args[0].(Slice)
+		r := ip.tb.BoolConst(true)
+		for i := 0; i < sl.len; i++ {
+			r = ip.tb.And(r, ip.load(sl.arr.elems[sl.off+i]).(*Term))
+		}
+		return r
+	}
+	V["Any"] = func(ip *Interp, fn *ssa.Function, args []Value) Value {
+		sl := args[0].(Slice)
+		r := ip.tb.BoolConst(false)
+		for i := 0; i < sl.len; i++ {
+			r = ip.tb.Or(r, ip.load(sl.arr.elems[sl.off+i]).(*Term))
+		}
+		return r
+	}
+	V["Implies"] = func(ip *Interp, fn *ssa.Function, args []Value) Value {
+		return ip.tb.Or(ip.tb.Not(termArg(args[0])), termArg(args[1]))
+	}
+	V["IteF"] = func(ip *Interp, fn *ssa.Function, args []Value) Value {
+		return ip.tb.Ite(termArg(args[0]), termArg(args[1]), termArg(args[2]))
+	}
+	V["IteI"] = V["IteF"]
 	V["IsNaN"] = func(ip *Interp, fn *ssa.Function, args []Value) Value {
 		return ip.tb.FPIsNaN(termArg(args[0]))
 	}
@@ -686,6 +714,114 @@ func init() {
 	I["(*time.Ticker).Reset"] = stubZero
 	I["(*time.Timer).Stop"] = func(ip *Interp, fn *ssa.Function, args []Value) Value { return ip.tb.BoolConst(true) }
 	I["(*time.Timer).Reset"] = I["(*time.Timer).Stop"]
+	// ----- time.Time under the monotonic-clock abstraction (only when enabled) -----
+	timeKind := func(ip *Interp, v Value) (string, *Term) {
+		a, ok := v.(Agg)
+		if !ok || len(a.elems) != 3 {
+			return "", nil
+		}
+		wall, ok1 := a.elems[0].(*Term)
+		ext, ok2 := a.elems[1].(*Term)
+		if !ok1 || !ok2 || !wall.isConst {
+			return "", nil
+		}
+		if wall.bv == 0 && ext.isConst && ext.bv == 0 {
+			return "zero", ext
+		}
+		if wall.bv>>63 == 1 {
+			return "mono", ext
+		}
+		return "", nil
+	}
+	cmpTime := func(op string) intrinsicFn {
+		return func(ip *Interp, fn *ssa.Function, args []Value) Value {
+			if !ip.cfg.AbstractTime {
+				return fallThrough
+			}
+			ka, ea := timeKind(ip, args[0])
+			kb, eb := timeKind(ip, args[1])
+			if ka == "" || kb == "" {
+				return fallThrough
+			}
+			tb := ip.tb
+			switch {
+			case ka == "mono" && kb == "mono":
+				switch op {
+				case "before":
+					return tb.BVCmp("bvslt", ea, eb)
+				case "after":
+					return tb.BVCmp("bvsgt", ea, eb)
+				default:
+					return tb.Eq(ea, eb)
+				}
+			case ka == "zero" && kb == "zero":
+				return tb.BoolConst(op == "equal")
+			case ka == "zero": // the zero time is before every clock reading
+				return tb.BoolConst(op == "before")
+			default:
+				return tb.BoolConst(op == "after")
+			}
+		}
+	}
+	I["(time.Time).Before"] = cmpTime("before")
+	I["(time.Time).After"] = cmpTime("after")
+	I["(time.Time).Equal"] = cmpTime("equal")
+	I["(time.Time).IsZero"] = func(ip *Interp, fn *ssa.Function, args []Value) Value {
+		if !ip.cfg.AbstractTime {
+			return fallThrough
+		}
+		k, _ := timeKind(ip, args[0])
+		if k == "" {
+			return fallThrough
+		}
+		return ip.tb.BoolConst(k == "zero")
+	}
+	I["(time.Time).Sub"] = func(ip *Interp, fn *ssa.Function, args []Value) Value {
+		if !ip.cfg.AbstractTime {
+			return fallThrough
+		}
+		ka, ea := timeKind(ip, args[0])
+		kb, eb := timeKind(ip, args[1])
+		if ka == "" || kb == "" {
+			return fallThrough
+		}
+		tb := ip.tb
+		maxD := tb.BVConst(1<<63-1, 64)
+		minD := tb.BVConst(1<<63, 64)
+		switch {
+		case ka == "mono" && kb == "mono":
+			d := tb.BVBin("bvsub", ea, eb)
+			zero := tb.BVConst(0, 64)
+			// time.Time.Sub: saturate when the subtraction wrapped
+			over := tb.And(tb.BVCmp("bvslt", d, zero), tb.BVCmp("bvsgt", ea, eb))
+			under := tb.And(tb.BVCmp("bvsgt", d, zero), tb.BVCmp("bvslt", ea, eb))
+			return tb.Ite(over, maxD, tb.Ite(under, minD, d))
+		case ka == "zero" && kb == "zero":
+			return tb.BVConst(0, 64)
+		case ka == "zero":
+			return minD
+		default:
+			return maxD
+		}
+	}
+	I["(time.Time).Add"] = func(ip *Interp, fn *ssa.Function, args []Value) Value {
+		if !ip.cfg.AbstractTime {
+			return fallThrough
+		}
+		k, e := timeKind(ip, args[0])
+		if k != "mono" {
+			return fallThrough
+		}
+		tb := ip.tb
+		d := termArg(args[1])
+		te := tb.BVBin("bvadd", e, d)
+		zero := tb.BVConst(0, 64)
+		wrapped := tb.Or(tb.And(tb.BVCmp("bvslt", d, zero), tb.BVCmp("bvsgt", te, e)),
+			tb.And(tb.BVCmp("bvsgt", d, zero), tb.BVCmp("bvslt", te, e)))
+		ip.assumeStated(tb.Not(wrapped), "time.Time.Add: monotonic reading + duration does not overflow int64 nanoseconds")
+		a := args[0].(Agg)
+		return Agg{elems: []Value{a.elems[0], te, a.elems[2]}}
+	}
 	// ----- math -----
 	I["math.Pow"] = func(ip *Interp, fn *ssa.Function, args []Value) Value {
 		return ip.mathPow(termArg(args[0]), termArg(args[1]))
@@ -720,8 +856,27 @@ func init() {
 		}
 		return ip.tb.mk("fp.abs", FPSort, 0, 0, t)
 	}
-	I["math.archMin"] = nil
-	delete(I, "math.archMin")
+	// math.Min/Max (assembly on amd64): documented special cases
+	I["math.Min"] = func(ip *Interp, fn *ssa.Function, args []Value) Value {
+		tb := ip.tb
+		x, y := termArg(args[0]), termArg(args[1])
+		if x.isConst && y.isConst {
+			return tb.FPConst(math.Min(x.f, y.f))
+		}
+		ninf := tb.FPConst(math.Inf(-1))
+		isNinf := tb.Or(tb.FPCmp("fp.eq", x, ninf), tb.FPCmp("fp.eq", y, ninf))
+		return tb.Ite(isNinf, ninf, ip.fpMinMax(true, x, y))
+	}
+	I["math.Max"] = func(ip *Interp, fn *ssa.Function, args []Value) Value {
+		tb := ip.tb
+		x, y := termArg(args[0]), termArg(args[1])
+		if x.isConst && y.isConst {
+			return tb.FPConst(math.Max(x.f, y.f))
+		}
+		pinf := tb.FPConst(math.Inf(1))
+		isPinf := tb.Or(tb.FPCmp("fp.eq", x, pinf), tb.FPCmp("fp.eq", y, pinf))
+		return tb.Ite(isPinf, pinf, ip.fpMinMax(false, x, y))
+	}
 	I["math/bits.Mul64"] = func(ip *Interp, fn *ssa.Function, args []Value) Value {
 		x, y := termArg(args[0]), termArg(args[1])
 		if x.isConst && y.isConst {
